@@ -521,7 +521,14 @@ Definition judge_C12 (relaxed : bool) (sc : scen) (dead : list lock)
    | AAcquire c _ f =>
        if existsb (fun l => memb l dead) (leaves (shape_of sc c)) then
          match r with
-         | RSkipped | RBlockedC => true
+         | RSkipped => true
+         | RBlockedC =>
+             (* a blocking acquisition of the dead lock itself panics instead of waiting; a collection may
+                legitimately wait for another member first *)
+             negb (match leaves (shape_of sc c), f with
+                   | [_], (FGuard | FScoped _ _) => true
+                   | _, _ => false
+                   end)
          | ROk | RPoisoned => false
          | _ => true
          end
